@@ -20,7 +20,9 @@ CHECKS = {
     "C01": ("model_checking",
             "TLC evaluates the property formulas of spec/Trace_P.tla on every step of recorded executions of real replicas under an adversarial scheduler (trace validation, Pass A)",
             "Agreement and chain shape are evaluated by TLC at every step of recorded executions of clusters of real replicas (n=4,7; three rulesets; Byzantine replicas scripted by an adversary that equivocates, forks, forges and replays); TLC also exhausts, within small bounds, the abstract protocol model HotStuffAbs (negative control: without the lock Agreement is refuted) and MC_HotStuff, the implementation-shaped replica model composed with a lossy network and view timers."
-            " TLC-generated scripts (spec/generated/scripts.ndjson: behaviours of HotStuffAbs that violate Agreement when one rule is weakened, and behaviours of the correct model) are played against real replicas by a Byzantine leader (hsverif attack) and judged the same way. Pass B: every step of the runs without Byzantine action is also replayed through the deterministic replica model spec/HotStuff.tla (Trace_R.tla) -- post-state, signatures, commits, view changes and every message sent must be exactly what the model computes (drift is reported as a warning).",
+            " TLC-generated scripts (spec/generated/scripts.ndjson: behaviours of HotStuffAbs that violate Agreement when one rule is weakened, and behaviours of the correct model) are played against real replicas by a Byzantine leader (hsverif attack) and judged the same way. Pass B: every step of the runs without Byzantine action is also replayed through the deterministic replica model spec/HotStuff.tla (Trace_R.tla) -- post-state, signatures, commits, view changes and every message sent must be exactly what the model computes (drift is reported as a warning)."
+            " Hand-written adversary scripts for Fast-HotStuff (spec/handwritten/fhs_scripts.ndjson: proposals carrying a genuine aggregate QC assembled from the honest replicas' own timeout messages, or an unsigned one) are played by the same player; one of them reproduces the known finding D24 (DESIGN 7)."
+            ,
             "Byzantine keys count as having signed everything; one scheduler step = one delivery run to quiescence.", "DESIGN.md section 6, C01"),
     "C03": ("model_checking",
             "TLC evaluates the property formulas of spec/Trace_P.tla on every step of recorded executions of real replicas under an adversarial scheduler (trace validation, Pass A)",
@@ -33,7 +35,9 @@ CHECKS = {
             "synchronously (all messages among it before any of its timers, later views led by its members; round-robin, fixed and scripted leaders; n in {4,7}); TLC checks "
             "that every member has committed a new block once it is 3*(ChainLength+1) views beyond the heal, and in fault-free synchronous runs that nobody times out, every "
             "view adds a block on the previous view's block and commits trail the proposal by exactly ChainLength. Fast-HotStuff fails (known finding, see DESIGN 7/D11). Scenario batches: a leader cut off in every other view of a stretch it leads that then falls silent; a lagging leader-to-be; clients with a small window that fall silent and return (a proposer without commands waits for its view timer). Progress is a sliding window: no member goes 3*(ChainLength+1) views (or twice as many timer expiries) without committing."
-            " Pass B: every step of the runs without Byzantine action is also replayed through the deterministic replica model spec/HotStuff.tla (Trace_R.tla) -- post-state, signatures, commits, view changes and every message sent must be exactly what the model computes (drift is reported as a warning).",
+            " Pass B: every step of the runs without Byzantine action is also replayed through the deterministic replica model spec/HotStuff.tla (Trace_R.tla) -- post-state, signatures, commits, view changes and every message sent must be exactly what the model computes (drift is reported as a warning)."
+            " View timer: every call the synchronizer makes on its ViewDuration is recorded (Duration() = the one-shot timer is armed for the replica's current view; a timer the scheduler fires is spent); TLC checks after every step that the stepping replica's timer is armed for the view it is in (Trace_P!TimerStep), the replica model predicts the armed view and the call sequence exactly (Pass B), and MC_HotStuff checks TimerLive exhaustively."
+            ,
             "Commands are always available; the bound is measured on the stepping member's view.", "DESIGN.md section 6, C05"),
     "C06": ("model_checking",
             "TLC evaluates the property formulas of spec/Trace_P.tla on every step of recorded executions of real replicas under an adversarial scheduler (trace validation, Pass A)",
